@@ -1,5 +1,6 @@
 import ZorgVerif.Gen.Consts
 import ZorgVerif.Lemmas.Action
+import ZorgVerif.Lemmas.ActionSolo
 /-! # C17 — `action open` offers and opens exactly the link targets on the line
 
 Model: `Model/Action.lean` (`run_action_open`: the word scan with its `found_primary_zid` state variable, the
@@ -41,6 +42,15 @@ theorem C17_option (zdir : Str) (lk : Lookup) (ts : List Target) (n n' : Nat) (k
     (hk1 : 1 ≤ k) (hk : k ≤ ts.length) (opt' : Option Int) :
     ∃ t, ts[k - 1]? = some t ∧ respond zdir lk ts n (some (k : Int)) = respond zdir lk [t] n' opt' :=
   respond_option zdir lk ts n n' k h hk1 hk opt'
+
+/-- … and "a line containing only the k-th target" offers exactly that target: for every target whose text is one
+already-stripped word (what the scan produces), the line `- solo <target>` has the target list `[t]` — so by `C17_option` and
+`C17_single`, choosing option k answers exactly like running `action open` on that one-target line. -/
+theorem C17_solo_line (vd : Str → Bool) (isZoq : Bool) (t : Target)
+    (hsp : ' ' ∉ t.text) (hst : stripSet "(),.?!;:".toList t.text = t.text)
+    (ht : (∃ w, t = .word w ∧ isLinkWord w = true) ∨
+          (∃ z, t = .zid z ∧ isZid vd z = true ∧ isLinkWord z = false ∧ stripSet ['[', ']'] z = z)) :
+    targets vd isZoq ("- solo ".toList ++ t.text) = [t] := solo_line_of_target vd isZoq t hsp hst ht
 
 /-- option -1 opens the last target -/
 theorem C17_option_last (zdir : Str) (lk : Lookup) (ts : List Target) (n n' : Nat) (h : 2 ≤ ts.length) (opt' : Option Int) :
